@@ -28,7 +28,8 @@ EXTENDS GraphStore, IOUtils
 
 CONSTANTS Mode,          \* "gen": histories with restarts; "judge": read observations back
           RestartSets,   \* set of sets of positions (number of steps done) at which a restart is inserted
-          LenientRelabel \* TRUE: do not judge stale label entries once the history re-labelled an element
+          LenientRelabel,\* TRUE: do not judge stale label entries once the history re-labelled an element
+          NeedGraph      \* TRUE: generate only histories that begin by creating a graph (nothing is stored before)
 
 VARIABLES rset, l
 rvars == <<gs, hist, fin, rset, l>>
@@ -55,6 +56,7 @@ RestartCall == [op |-> "Restart", g |-> ""]
 RestartEntry(s) == [call |-> RestartCall, res |-> "ok", after |-> s, changed |-> {}, relabel |-> FALSE]
 
 RDo(c) == /\ Enabled(c)
+          /\ NeedGraph => (gs # <<>> \/ (c.op = "AddGraph" /\ c.g \notin BadGraphNames))
           /\ gs' = Eff(gs, c)[1]
           /\ hist' = Append(hist, Entry(gs, c))
           /\ UNCHANGED <<rset, l, fin>>
